@@ -54,6 +54,7 @@ type DBSpec struct {
 	Types       []int // pool indices used, all migrated
 	Programs    [][]Op
 	OrBase      bool
+	WarmTypes   []int `json:",omitempty"` // cold rounds: these types (pool indices) are used once, serially, before the goroutines start
 	SessionPrep bool `json:",omitempty"` // handle opened WITHOUT Config.PrepareStmt; every op runs on its own db.Session(&gorm.Session{PrepareStmt: true})
 	WatchdogSec int `json:",omitempty"` // 0 = 60: seconds after which a round is declared hung
 	SyncOps     int `json:",omitempty"` // the first SyncOps ops of every program start behind a common barrier (0 = 1: start barrier only)
@@ -155,6 +156,12 @@ func fillExtras(v reflect.Value, id int64) {
 			continue
 		}
 		if f.Name == "ID" || f.Name == "Name" || f.Name == "Val" || strings.HasSuffix(f.Name, "ID") || isRelField(f) {
+			continue
+		}
+		if f.Type == reflect.TypeOf(SzSecret("")) {
+			// unique per row and per field, in several parts: a value decoded into somebody else's
+			// serializer instance, or a torn one, cannot equal the row's own
+			fv.SetString(fmt.Sprintf("%s%d-%d-%d-%d-%d-%d", strings.ToLower(f.Name[:1]), id, id, id, id, id, id))
 			continue
 		}
 		switch fv.Kind() {
@@ -518,11 +525,13 @@ func runDB(spec DBSpec, dir string, serial bool) (obs DBObs) {
 	sqlDB.SetMaxOpenConns(conns)
 	defer sqlDB.Close()
 
+	warmUp := spec.WarmTypes
 	if !spec.Cold {
-		for _, t := range spec.Types {
-			if err := db.Limit(1).Find(Pool[t].NewSlice()).Error; err != nil {
-				return fail("warm", err)
-			}
+		warmUp = spec.Types
+	}
+	for _, t := range warmUp {
+		if err := db.Limit(1).Find(Pool[t].NewSlice()).Error; err != nil {
+			return fail("warm", err)
 		}
 	}
 	namer.take()
@@ -1202,6 +1211,69 @@ func genFresh(r *lib.Rng, g int, sessionPrep bool, thorough bool) DBSpec {
 			op := Op{Kind: kinds[k], T: types[k], Par: int64(1000 + k), Lo: base + 1, Hi: base + idSpan - 1,
 				ID: base + 1 + int64(k%2), Val: int64(100*k + gi)}
 			prog = append(prog, op)
+		}
+		spec.Programs = append(spec.Programs, prog)
+	}
+	spec.SyncOps = len(spec.Programs[0])
+	return spec
+}
+
+// genFan: several parent types with a has-many / has-one relation to ONE child type; the child is
+// used (warm) before the goroutines start, every parent type is cold and first used at the same
+// moment by a different goroutine (G > number of parent types: several goroutines per parent).
+// Only the parents are touched by the programs.
+func genFan(r *lib.Rng, g int) DBSpec {
+	fam := Families["fan"]
+	kid := poolByName["FnKid"]
+	var parents []int
+	for _, t := range fam {
+		if t != kid {
+			parents = append(parents, t)
+		}
+	}
+	lib.Shuffle(r, parents)
+	spec := DBSpec{G: g, Cold: true, PrepareStmt: r.Bool(), Conns: g, Types: append([]int{}, fam...), WarmTypes: []int{kid}, SyncOps: 1}
+	for gi := 0; gi < g; gi++ {
+		t := parents[gi%len(parents)]
+		base := int64(gi) * idSpan
+		first := lib.Pick(r, []string{"find", "first", "count", "create"})
+		prog := []Op{{Kind: first, T: t, ID: base + 1, Name: "p", Val: int64(gi), Lo: base + 1, Hi: base + idSpan - 1}}
+		if first != "create" {
+			prog = append(prog, Op{Kind: "create", T: t, ID: base + 1, Name: "p", Val: int64(gi)})
+		}
+		prog = append(prog,
+			Op{Kind: "create_batch", T: t, IDs: []int64{base + 2, base + 3}, Name: "q", Val: 5},
+			Op{Kind: "find", T: t, Lo: base + 1, Hi: base + idSpan - 1},
+			Op{Kind: "count", T: t, Lo: base + 1, Hi: base + idSpan - 1})
+		spec.Programs = append(spec.Programs, prog)
+	}
+	return spec
+}
+
+// genSerial: models with a field whose type implements schema.SerializerInterface, read by all
+// goroutines at the same moment right after the handle was opened (every read behind the spin
+// barrier), each goroutine its own rows; every row is compared with the serial run.
+func genSerial(r *lib.Rng, g int, thorough bool) DBSpec {
+	fam := Families["serial"]
+	spec := DBSpec{G: g, Cold: r.Chance(2, 3), PrepareStmt: r.Bool(), Conns: 4, Types: append([]int{}, fam...)}
+	steps := 10
+	if thorough {
+		steps = 20
+	}
+	kinds := make([]string, steps)
+	types := make([]int, steps)
+	for k := range kinds {
+		kinds[k] = lib.Pick(r, []string{"find", "find", "first", "fresh_find"})
+		types[k] = fam[r.Intn(len(fam))]
+	}
+	for gi := 0; gi < g; gi++ {
+		base := int64(gi) * idSpan
+		var prog []Op
+		for _, t := range fam {
+			prog = append(prog, Op{Kind: "create_batch", T: t, IDs: []int64{base + 1, base + 2, base + 3, base + 4}, Name: "d", Val: 1})
+		}
+		for k := 0; k < steps; k++ {
+			prog = append(prog, Op{Kind: kinds[k], T: types[k], ID: base + 1 + int64(k%4), Par: int64(2000 + k), Lo: base + 1, Hi: base + idSpan - 1})
 		}
 		spec.Programs = append(spec.Programs, prog)
 	}
